@@ -5,12 +5,14 @@ package simrt
 // RaceEnabled reports whether the binary was built with -race.
 const RaceEnabled = false
 
-func raceFork(t *Task)      {}
-func raceTaskStart(t *Task) {}
-func raceGrant(t *Task)     {}
+func raceOff() {}
+func raceOn()  {}
 
 // RaceAcquire / RaceRelease publish a happens-before edge on addr (race mode only).
 func RaceAcquire(addr interface{}) {}
 
 // RaceRelease see RaceAcquire.
 func RaceRelease(addr interface{}) {}
+
+// RaceErrors is the number of data races reported so far (race mode only).
+func RaceErrors() int { return 0 }
